@@ -3,7 +3,9 @@ package props
 import (
 	"bytes"
 	"encoding/json"
+	"errors"
 	"fmt"
+	"github.com/robfig/soy/template"
 	"sort"
 	"strings"
 
@@ -112,6 +114,16 @@ func observeCase(c *gen.Case, o obsOpts) vector {
 		_, _, err3 := sut.CompileBundle(c, o.order)
 		if (err == nil) != (err3 == nil) || (err != nil && err.Error() != err3.Error()) {
 			v.Again = fmt.Sprintf("first Bundle: %v; a second Bundle built from the same files and the same globals maps: %v", err, err3)
+		}
+	}
+	if v.Again == "" && err == nil {
+		// a parse pass added after a compilation takes part in the next one (a fresh bundle with the
+		// same pass rejects: the pass rejects everything)
+		bundle.AddParsePass(func(template.Registry) error {
+			return errors.New("rejected by the pass added after the first compilation")
+		})
+		if _, err4 := bundle.Compile(); err4 == nil || !strings.Contains(err4.Error(), "rejected by the pass") {
+			v.Again = fmt.Sprintf("Compile, AddParsePass(a pass that rejects), Compile: the second compilation returned %v", err4)
 		}
 	}
 	sut.Cleanup()
@@ -793,6 +805,16 @@ func c13Gen(c *wk.Ctx, run, ci int) (*gen.Case, int) {
 		f1.Templates = append(f1.Templates,
 			&gen.Template{Name: "cyb", Body: fwd(full(f1, f0, "cya"), ".cyc")},
 			&gen.Template{Name: "cyc", Params: []gen.Param{{Name: "b", Optional: true}}, Body: []*gen.Node{{K: "print", E: "$b"}}})
+	}
+	if run%5 == 1 && ci%4 == 3 && len(gc.Files) >= 2 && c13Compiles(gc) {
+		// exactly one error: a template of the first file defined again, under the same full name, in
+		// a differently named second file
+		f0, f1 := gc.Files[0], gc.Files[1]
+		if f0.Name != f1.Name && len(f0.Templates) > 0 {
+			dup := &gen.File{Name: "dup_" + f1.Name, Namespace: f0.Namespace, Templates: []*gen.Template{{Name: f0.Templates[0].Name, Body: []*gen.Node{{K: "text", S: "again"}}}}}
+			gc.Files = append(gc.Files, dup)
+			gc.OneError = true
+		}
 	}
 	if run%5 == 0 && ci%4 == 3 && len(gc.Files) >= 2 {
 		// two files that do not parse: two independent errors; which one is reported may depend on the
